@@ -145,49 +145,69 @@ theorem holdLast_inv (P : Nat) (d : Dec) (p : Pkt) (y : Bool) (obus : List Bytes
     · exact ⟨by simp [hfr], hlast, h.fb_eq, h.fb_len, h.fb_le, h.fb_cnt⟩
   · exact h
 
+theorem afterParse_inv (P : Nat) (d : Dec) (p : Pkt) (z y : Bool) (obus : List Bytes) (h : Inv P d)
+    (hall : ∀ x ∈ obus, x.length ≤ P) : Inv P (afterParse d p z y obus).1 := by
+  unfold afterParse
+  split
+  · split
+    · exact h
+    · simp only
+      split
+      · exact inv_resetFragments P _ (inv_first P d true h)
+      · split
+        · exact inv_resetFragments P _ (inv_first P d true h)
+        · rename_i hsz
+          split
+          · exact ⟨by simp [h.frag_eq], by first | omega | (simp only; omega), h.fb_eq, h.fb_len, h.fb_le, h.fb_cnt⟩
+          · apply holdLast_inv
+            · exact ⟨rfl, by simp [Dec.resetFragments], h.fb_eq, h.fb_len, h.fb_le, h.fb_cnt⟩
+            · rfl
+            · intro x hx
+              simp only [List.mem_cons] at hx
+              rcases hx with hx | hx
+              · subst hx; rw [joinFragments_length]; omega
+              · have := hall x (List.mem_of_mem_tail hx); omega
+  · apply holdLast_inv
+    · exact inv_resetFragments P _ (inv_first P d true h)
+    · rfl
+    · intro x hx; have := hall x hx; omega
+
 /-- `decodeOBUs` keeps the invariant for EVERY packet whose payload is at most `P` bytes -/
 theorem decodeOBUs_inv (P : Nat) (d : Dec) (p : Pkt) (h : Inv P d) (hp : p.payload.length ≤ P) :
     Inv P (decodeOBUs d p).1 := by
   unfold decodeOBUs
   split
   · exact h
-  · exact h
-  · rename_i b0 payload hne hpl
-    simp only
+  · simp only
     split
     · exact inv_resetFragments P d h
     · rename_i obus hparse
       have htot := parseObus_total _ _ _ _ _ hparse
-      have hplen : payload.length + 1 ≤ P := by rw [hpl] at hp; simpa using hp
       have hall : ∀ x ∈ obus, x.length ≤ P := by
         intro x hx
         have := mem_length_le_totalLen obus x hx
-        simp only [totalLen_nil] at htot
+        simp only [totalLen_nil, List.length_tail] at htot
         omega
       split
       · exact h
+      · exact afterParse_inv P d p _ _ obus h hall
+
+theorem afterParse_fb (d : Dec) (p : Pkt) (z y : Bool) (obus : List Bytes) :
+    (afterParse d p z y obus).1.frameBuffer = d.frameBuffer ∧ (afterParse d p z y obus).1.frameBufferLen = d.frameBufferLen ∧
+    (afterParse d p z y obus).1.frameBufferSize = d.frameBufferSize := by
+  unfold afterParse
+  split
+  · split
+    · simp
+    · simp only
+      split
+      · simp [Dec.resetFragments]
       · split
+        · simp [Dec.resetFragments]
         · split
-          · exact h
-          · split
-            · exact inv_resetFragments P _ (inv_first P d true h)
-            · split
-              · exact inv_resetFragments P _ (inv_first P d true h)
-              · rename_i hsz
-                split
-                · exact ⟨by simp [h.frag_eq], by first | omega | (simp only; omega), h.fb_eq, h.fb_len, h.fb_le, h.fb_cnt⟩
-                · apply holdLast_inv
-                  · exact ⟨rfl, by simp [Dec.resetFragments], h.fb_eq, h.fb_len, h.fb_le, h.fb_cnt⟩
-                  · rfl
-                  · intro x hx
-                    simp only [List.mem_cons] at hx
-                    rcases hx with hx | hx
-                    · subst hx; rw [joinFragments_length]; omega
-                    · have := hall x (List.mem_of_mem_tail hx); omega
-        · apply holdLast_inv
-          · exact inv_resetFragments P _ (inv_first P d true h)
-          · rfl
-          · intro x hx; have := hall x hx; omega
+          · simp
+          · exact holdLast_fb _ _ _ _
+  · exact holdLast_fb _ _ _ _
 
 /-- `decodeOBUs` never touches the frame buffer -/
 theorem decodeOBUs_fb (d : Dec) (p : Pkt) :
@@ -196,23 +216,12 @@ theorem decodeOBUs_fb (d : Dec) (p : Pkt) :
   unfold decodeOBUs
   split
   · simp
-  · simp
   · simp only
     split
     · simp [Dec.resetFragments]
     · split
       · simp
-      · split
-        · split
-          · simp
-          · split
-            · simp [Dec.resetFragments]
-            · split
-              · simp [Dec.resetFragments]
-              · split
-                · simp
-                · exact holdLast_fb _ _ _ _
-        · exact holdLast_fb _ _ _ _
+      · exact afterParse_fb _ _ _ _ _
 
 /-- **C08**: the invariant is preserved by `Decode` on EVERY packet of payload size ≤ `P`. -/
 theorem inv_decode (P : Nat) (d : Dec) (p : Pkt) (h : Inv P d) (hp : p.payload.length ≤ P) :
@@ -224,6 +233,8 @@ theorem inv_decode (P : Nat) (d : Dec) (p : Pkt) (h : Inv P d) (hp : p.payload.l
   · rename_i d1 obus heq
     rw [heq] at h1
     simp only at h1 ⊢
+    unfold pushFrame
+    simp only
     split
     · exact inv_resetFrameBuffer P d1 h1
     · split
@@ -245,6 +256,7 @@ theorem out_le (P : Nat) (d : Dec) (p : Pkt) (f : List Bytes) (h : Inv P d) (hok
   · rename_i d1 fl heq; cases fl <;> simp [Fail.toRes] at hok
   · rename_i d1 obus heq
     rw [heq] at hfb
+    unfold pushFrame at hok
     simp only at hfb hok
     split at hok
     · simp at hok
